@@ -593,8 +593,12 @@ void StructAssignmentManager::assign_struct_member_struct(
         }
     }
 
-    // 構造体データをコピー（struct_membersも含む）
+    // 構造体データをコピー（struct_membersも含む）。const かどうかは代入先の
+    // メンバーの性質で、コピー元の値 (w.in = a で a が const) からは
+    // 引き継がない
+    const bool member_was_const = member_var->is_const;
     *member_var = struct_value;
+    member_var->is_const = member_was_const;
     member_var->is_assigned = true;
 
     // ダイレクトアクセス変数も更新
@@ -607,7 +611,9 @@ void StructAssignmentManager::assign_struct_member_struct(
             throw std::runtime_error("Cannot assign to const struct member: " +
                                      direct_var_name);
         }
+        const bool direct_was_const = direct_var->is_const;
         *direct_var = struct_value;
+        direct_var->is_const = direct_was_const;
         direct_var->is_assigned = true;
         if (interpreter_->debug_mode) {
             {
@@ -1510,11 +1516,16 @@ void StructAssignmentManager::process_named_initialization(
                     member_init->right->name);
             }
 
+            // const かどうかは初期化されるメンバーの性質（上で設定済み）で、
+            // コピー元の変数 (W w = {in: a} で a が const) からは引き継がない
+            const bool member_is_const = struct_member_var.is_const;
             struct_member_var = *source_var;
+            struct_member_var.is_const = member_is_const;
             struct_member_var.is_assigned = true;
 
             if (member_var) {
                 *member_var = *source_var;
+                member_var->is_const = member_is_const;
                 member_var->is_assigned = true;
             }
 
